@@ -1737,7 +1737,7 @@ class SFACTable():
                 for x in ('element', 'a1', 'b1', 'a2', 'b2', 'a3', 'b3', 'a4', 'b4', 'c',
                           'fprime', 'fdprime', 'mu', 'r', 'wt'):
                     values.append(sf[x])
-                sftext = self._extend_sfac_text(elements, sftext)
+                sftext = self._extend_sfac_text(values, sftext)
         if elements:
             sftext = self._extend_sfac_text(elements, sftext)
         return sftext[1:]
